@@ -562,3 +562,12 @@ pub fn check_pipe_macro() -> Option<(String, String)> {
     }
     None
 }
+
+/// hash of what one (program, input) run of the real code did (C20 digests)
+pub fn last_outcome_hash(stages: &[Stage], input: &Input, prog: &[usize], ii: usize) -> u64 {
+    use std::hash::{Hash, Hasher};
+    let o = run_real(stages, input);
+    let mut h = std::collections::hash_map::DefaultHasher::new();
+    (prog, ii, &o.seen, o.nexts, o.tap, o.panicked, o.aborted).hash(&mut h);
+    h.finish()
+}
